@@ -14,7 +14,7 @@ CHECKS = {
     "C09": dict(engine="SIM-V", category="fault_enumeration", design_ref="DESIGN.md 2.1, 3",
                 technique="deterministic simulation with fault injection: error/panic injected into the converter at every position, instant and payload kind; ledger + allocator oracle",
                 text="Every fault position x fault kind (error / panic) x instant (before/after dropping the input, after building the output, while holding the previous output) x payload kind x preceding converted/abandoned pattern is enumerated for vector lengths up to a bound over all element type pairs, and sampled by seed beyond; after each failed call the ledger (exactly-once destruction), the allocator log (buffer released once, live bytes back to baseline), the call log and the identity of the error value / panic payload are checked. Complete for the enumerated bound, sampled beyond.",
-                note="Trusts rustc/std and the stubs; panicking Drop impls and allocation failure are not injected (outside the property's statement)."),
+                note="Trusts rustc/std and the stubs; the converter's error type is a case dimension (Copy, heap-owning, zero-size, large); panicking Drop impls of elements and allocation failure are not injected (outside the property's statement)."),
     "C10": dict(engine="SIM-V", category="fault_enumeration", design_ref="DESIGN.md 2.1, 3",
                 technique="deterministic simulation: layout-mismatch matrix as injected fault, ledger + allocator oracle",
                 text="A matrix of 14 mismatching element type pairs (equal/unequal size x equal/unequal alignment, zero-size vs non-zero-size, same size with different alignment) x every vector length up to a bound is enumerated, plus seeded samples up to length 40: the call must unwind with zero converter calls, every input destroyed exactly once and the buffer freed once with its own layout.",
@@ -28,9 +28,9 @@ CHECKS = {
                 text="Seeded search over conversion-heavy histories: each of the four generated From forms, chains of random forms up to the last variant, vector conversions with scripted converters, on definitions including removed and added fields that share bytes; carried fields must be unchanged, added fields equal the supplied values, returned removed fields equal what was stored. Samples; no proof.",
                 note="Same trusted base as C04."),
     "C06": dict(engine="SIM-R", category="exploration", design_ref="DESIGN.md 2.2, 3, App. A",
-                technique="deterministic simulation with fault injection: full record life cycles under clone/serde/converter faults; exactly-once ledger + allocator conservation after every step and at end of life",
+                technique="deterministic simulation with fault injection: full record life cycles under clone/serde/converter faults and panicking destructors; exactly-once ledger + allocator conservation after every step and at end of life",
                 text="Seeded search over whole life cycles (construction, mutation, conversion, vector conversion, unpack, clone, clone_from, decode, drop) with panics and errors injected inside user callbacks; after every operation the ledger's live instances must equal what the model says the world owns (no leak, no double destruction, replaced/removed values destroyed at the specified moment) and at the end of each history every instance is destroyed exactly once and heap bytes are back to baseline. Samples; no proof.",
-                note="Ledger covers instrumented token types and heap owners via the allocator; plain Copy data cannot leak."),
+                note="Ledger covers instrumented token types and heap owners via the allocator; plain Copy data cannot leak. After an injected destructor panic only 'nothing is destroyed twice' is judged (leaks there are memory-safe and outside the stated sequences)."),
     "C07": dict(engine="SIM-R", category="exploration", design_ref="DESIGN.md 2.2, 3, 5",
                 technique="deterministic simulation: alignment/bounds monitor on every reference at the record's actual address (placements, capacities) + Miri arm with seeded addresses and symbolic alignment check",
                 text="Native arm: for every live record after every step, every accessor's reference must be aligned for its type, inside the capacity, and the record itself aligned, at inline / boxed / shifted placements chosen to land on minimally aligned addresses, for CAP = MAX_SIZE and larger. Miri arm (seeded address allocator, symbolic alignment check, borrow tracking): decides alignment-requiring stores into unaligned destinations, out-of-bounds, use of moved-out/freed memory and pointer provenance for all raw accesses of generated code. Samples; no proof.",
